@@ -219,3 +219,68 @@ theorem holds_true_of_tautology (M : Model) (ν : BaseValues) (p : Var × Iv) (i
   simpa [conjunctOf, hname, hn, this] using hf
 
 end Y0.Fscm
+
+namespace Y0.Fscm
+
+/-! ### the structural equation holds in every world (semantic core of Lemma 24) -/
+
+theorem foldl_step_not_mem (M : Model) (u : NoisePoint) (d : Do) (l : List Name) (σ : Valuation) (w : Name)
+    (hw : w ∉ l) : (l.foldl (step M u d) σ) w = σ w := by
+  induction l generalizing σ with
+  | nil => rfl
+  | cons v vs ih =>
+    simp only [List.foldl_cons]
+    simp only [List.mem_cons, not_or] at hw
+    rw [ih _ hw.2, step_other M u d σ v w hw.1]
+
+/-- `order` evaluates parents first (what `Compatible.topo` states) -/
+def TopoOrder (M : Model) : Prop :=
+  M.order.Nodup ∧ ∀ l₁ v l₂, M.order = l₁ ++ v :: l₂ → ∀ p ∈ M.pa v, p ∈ l₁
+
+/-- **Structural equation.**  A variable that the world does not force takes the value its mechanism computes from the
+values of its parents in that world and the (shared) noise. -/
+theorem solve_unforced (M : Model) (hM : TopoOrder M) (u : NoisePoint) (d : Do) (v : Name) (hv : v ∈ M.order)
+    (hf : forced d v = none) :
+    solve M u d v = M.f v ((M.pa v).map (solve M u d)) ((M.lat v).map fun j => u.getD j 0) := by
+  obtain ⟨l₁, l₂, hsplit⟩ := List.append_of_mem hv
+  have hnd := hM.1
+  rw [hsplit] at hnd
+  have hv1 : v ∉ l₁ := fun h => by
+    have := List.nodup_append.1 hnd
+    exact this.2.2 v h v (by simp) rfl
+  have hv2 : v ∉ l₂ := (List.nodup_cons.1 (List.nodup_append.1 hnd).2.1).1
+  have hdisj : ∀ p ∈ l₁, p ∉ v :: l₂ := fun p hp hq => (List.nodup_append.1 hnd).2.2 p hp p hq rfl
+  unfold solve
+  rw [hsplit, List.foldl_append, List.foldl_cons]
+  set σ₁ := l₁.foldl (step M u d) (fun _ => 0) with hσ₁
+  -- value of v after its own step, unchanged afterwards
+  rw [foldl_step_not_mem M u d l₂ _ v hv2]
+  have hstep : step M u d σ₁ v v = M.f v ((M.pa v).map σ₁) ((M.lat v).map fun j => u.getD j 0) := by
+    simp [step, hf, update]
+  rw [hstep]
+  congr 1
+  apply List.map_congr_left
+  intro p hp
+  have hp1 : p ∈ l₁ := hM.2 l₁ v l₂ hsplit p hp
+  have hpn := hdisj p hp1
+  simp only [List.mem_cons, not_or] at hpn
+  rw [foldl_step_not_mem M u d l₂ _ p hpn.2, step_other M u d σ₁ v p hpn.1]
+
+/-- **Lemma 24, semantic form.**  Two copies `V` under `d₁` and `V` under `d₂` of a variable that neither world forces have
+the same mechanism; if all their parents take the same values at the noise point `u`, so do they.  (What remains OPEN for
+C18 is that the syntactic test `lemma24Holds` of cg.py guarantees this premise wherever the rest of the event holds.) -/
+theorem solve_eq_of_parents_eq (M : Model) (hM : TopoOrder M) (u : NoisePoint) (d₁ d₂ : Do) (v : Name) (hv : v ∈ M.order)
+    (h₁ : forced d₁ v = none) (h₂ : forced d₂ v = none)
+    (hpa : ∀ p ∈ M.pa v, solve M u d₁ p = solve M u d₂ p) : solve M u d₁ v = solve M u d₂ v := by
+  rw [solve_unforced M hM u d₁ v hv h₁, solve_unforced M hM u d₂ v hv h₂]
+  congr 1
+  exact List.map_congr_left hpa
+
+/-- a parentless, un-forced variable is the same random variable in every world -/
+theorem solve_root (M : Model) (hM : TopoOrder M) (u : NoisePoint) (d₁ d₂ : Do) (v : Name) (hv : v ∈ M.order)
+    (h₁ : forced d₁ v = none) (h₂ : forced d₂ v = none) (hroot : M.pa v = []) : solve M u d₁ v = solve M u d₂ v :=
+  solve_eq_of_parents_eq M hM u d₁ d₂ v hv h₁ h₂ (by simp [hroot])
+
+theorem Compatible.topoOrder {M : Model} {G : MG Name} (h : Compatible M G) : TopoOrder M := ⟨h.nodup, h.topo⟩
+
+end Y0.Fscm
